@@ -475,6 +475,24 @@ pub fn oneshot(cx: &mut Ctx) {
 
 // ------------------------------------------------------------------------------------------------
 
+/// spec -> impl for the one-shot API: every input exported by MC_OneShot through the four entry points
+/// (lines {"enc": name, "input": [bytes]}); the events are ordinary OD events (run = 0, tail = input)
+pub fn oneshot_replay(cx: &mut Ctx, path: &str) {
+    use serde_json::Value;
+    let text = std::fs::read_to_string(path).expect("input file");
+    for l in text.lines() {
+        let v: Value = match serde_json::from_str(l) {
+            Ok(v) => v,
+            Err(_) => continue,
+        };
+        let e = enc(v["enc"].as_str().unwrap());
+        let input: Vec<u8> = v["input"].as_array().unwrap().iter().map(|x| x.as_u64().unwrap() as u8).collect();
+        for api in APIS.iter() {
+            one_decode(cx, e, api, 0, &input);
+        }
+    }
+}
+
 fn hash_of(e: &'static Encoding) -> u64 {
     use std::hash::{Hash, Hasher};
     let mut h = std::collections::hash_map::DefaultHasher::new();
